@@ -58,6 +58,8 @@ func runC03(c *Ctx, r *Report) {
 	c.checkElseIfParsedAsIf(r, "C03.R7")
 	r.Rule("C03.R8", "sibling guards agree: in parseExpression the tests that accompany `next token is (` and `next token is [` (whitespace seen before it) use the same predicates")
 	c.checkSiblingWhitespaceGuards(r, "C03.R8")
+	r.Rule("C16.R7", "(shared with C16) token text is an owned copy: none of the front-end packages imports unsafe, so the text of a parsed program cannot change when the caller reuses its input buffer (formatting it again would print other identifiers)")
+	c.checkOwnedTokenText(r, "C16.R7")
 	r.Rule("C03.R1", "determinism: no function that can influence formatter output (printers, parser, lexer, function text/cache key) ranges over a Go map, reads the clock, a random source or the environment, or starts a goroutine; the map literal is printed through its recorded key order")
 	r.Rule("C03.R3", "normal-mode output ends with exactly one newline: the outermost Statements.PrettyPrint ends with Println on every path and emits nothing after it at the top level")
 	r.Rule("C02.R2", "(shared) operator printers consult precedence: output that re-parses to a different tree is not a fixpoint")
